@@ -21,7 +21,7 @@ for t in ATYPS:
       replace=['dt_conv_to_daisy', 'dt_get_base/UNREACH_dt_get_base'], solvers=SV, sweep=SW)
     G('dtc.dt_dtadd.hms.' + t[3:], 'dt-core', 'dt_dtadd', P11, ins=DT_IN + [(U, 'in_dt'), ('long long', 'in_dv')], fix={'in_typ': t},
       setup=DT_SET + ' struct dt_dtdur_s dur = {(dt_dtdurtyp_t)DT_DURUNK}; dur.durtyp = (dt_dtdurtyp_t)in_dt; dur.dv = in_dv;',
-      call='dt_dtadd(d, dur)', ret='struct dt_dt_s', replace=['dt_tadd_s', 'dt_dadd'], solvers=['cadical'], timeout=1800, tier='thorough', sweep=SW,
+      call='dt_dtadd(d, dur)', ret='struct dt_dt_s', replace=['dt_tadd_s', 'dt_dadd'], solvers=['cadical'], timeout=1800, tier='thorough', optional=True, sweep=SW,
       needs={'dt_dadd': r'da\.dt_dadd\.D\.%s$' % t[3:]})
 # the same obligation for steps of up to +-2^21 seconds (24 days): the 64-bit division identity step == 86400 * (step / 86400) + step % 86400
 # that the full-range groups above need does not discharge within the quick budget, the narrow range does
@@ -35,7 +35,7 @@ for u, lim in (('H', 582), ('M', 34952), ('S', 2097152)):
 DTYPS = ('DT_YMD', 'DT_YD', 'DT_DAISY', 'DT_LDN', 'DT_MDN')
 for t in DTYPS:
     G('dtc.dt_dtdiff.S.' + t[3:], 'dt-core', 'dt_dtdiff', P11 + ['C05'], ins=DT_IN + DT2_IN, fix={'in_typ': t, 'in_typ2': t}, setup=DT_SET + DT2_SET,
-      call='dt_dtdiff(DT_DURS, d, d2)', ret='struct dt_dtdur_s', replace=['dt_tdiff_s', 'dt_ddiff'], solvers=['cadical'], timeout=1800, tier='thorough', sweep=SW,
+      call='dt_dtdiff(DT_DURS, d, d2)', ret='struct dt_dtdur_s', replace=['dt_tdiff_s', 'dt_ddiff'], solvers=['cadical'], timeout=1800, tier='thorough', optional=True, sweep=SW,
       needs={'dt_ddiff': r'da\.dt_ddiff\.D\.%s\.%s$' % (t[3:], t[3:])})
     pass
 # C14: real-seconds differences: index lookups in the generated leap table, then the correction slot
